@@ -60,13 +60,13 @@ def subdir(name):
 # --------------------------------------------------------------------------------------------------
 # object history (a dimension every model scenario carries)
 # --------------------------------------------------------------------------------------------------
-HISTORIES = [[], [], [], [], [], ["reload"], ["deepcopy"], ["prepredict"], ["refit"], ["prepredict", "reload"]]
+HISTORIES = [[], [], [], [], [], ["reload"], ["deepcopy"], ["prepredict"], ["refit"], ["prepredict", "reload"], ["get_distances"], ["get_distances_norm", "deepcopy"]]
 
 
 def derive_history(scn):
     """The properties speak about 'a fitted model', whatever its past: half of all scenarios use a fresh object, the others
-    one that was fitted twice, has already predicted, was deep-copied, or went through save -> load into a freshly constructed
-    object.  The choice is a function of the scenario's content (no random stream is consumed; replay files carry it)."""
+    one that was fitted twice, has already predicted, was asked for its distance matrix, was deep-copied, or went through
+    save -> load into a freshly constructed object.  The choice is a function of the scenario's content (no random stream is consumed; replay files carry it)."""
     if "history" not in scn:
         key = json.dumps([scn.get("kind"), scn.get("mode"), scn.get("metric"), scn.get("I_train"), scn.get("Y"), scn.get("Q"), scn.get("U")], sort_keys=True)
         h = int(hashlib.sha256(key.encode()).hexdigest()[:8], 16) % len(HISTORIES)
@@ -81,6 +81,12 @@ def apply_history_step(model, step):
     """reload / deepcopy -> the object that continues the scenario."""
     import copy
 
+    if step in ("get_distances", "get_distances_norm"):
+        # a read-only public query between fit and predict: it reports, it may not redirect later predictions
+        import numpy as np
+        with np.errstate(all="ignore"):
+            model.get_distances(step == "get_distances_norm")
+        return model
     if step == "deepcopy":
         return copy.deepcopy(model)
     if step == "reload":
